@@ -133,6 +133,28 @@ pub fn run(property: &str, tier: &str, replay: Option<Value>) -> ! {
     rep.cov("consequence_search_steps", stats.consequence_steps);
     rep.cov("told_rule", "the oracles read the lease store as the record of who holds what; independently the search keeps what the clients were told (every reply recorded as sent). On every transition the two must agree; where they do not, every continuation of <= 2 operations is executed from the real store and the reply-level clauses of C01/C09 are judged against what the clients were told");
     rep.cov("root_states", json!(deep_roots().iter().map(state_json).collect::<Vec<_>>()));
+    // which address each client is offered first on an empty store: if two clients share a first
+    // preference they contend for the same address (the collision the driver wants); reported so
+    // that a vacuous alphabet (nobody ever collides) is visible
+    let mut prefs = serde_json::Map::new();
+    let mut seen_pref: Vec<String> = vec![];
+    for (ci, c) in CLIENTS.iter().enumerate().take(t.clients) {
+        for (ki, k) in cfgs.iter().enumerate() {
+            if k.name != "K1" && k.name != "K2" {
+                continue;
+            }
+            let m = MsgOp::basic(ki, k.ifaces[0].parse().unwrap(), ci, 1);
+            if let Ok((StepResult::Reply(r), _)) = step(&vec![], &Op::Msg(m), &cfgs) {
+                prefs.insert(format!("{}@{}", c.name, k.name), json!(r.yiaddr.to_string()));
+                seen_pref.push(format!("{}:{}", k.name, r.yiaddr));
+            }
+        }
+    }
+    let n_pref = seen_pref.len();
+    seen_pref.sort();
+    seen_pref.dedup();
+    rep.cov("first_preference_on_empty_store", Value::Object(prefs));
+    rep.cov("clients_share_a_first_preference", seen_pref.len() < n_pref);
     rep.cov("states_per_depth", json!(stats.states_per_depth));
     rep.cov("outcome_classes", json!(stats.outcome_classes));
     rep.cov("probe_evaluations", probe_evals);
